@@ -236,7 +236,9 @@ theorem prepareAttrValue_plain (m : Nat) (obj : Val) (sp : AttrSpec) (v : Val)
     (hv : v.isSent = false) (hp : Spec.prep E sp obj v ≠ MISSING) :
     prepareAttrValue E (m+2) obj sp v [] = Spec.prepared E m obj sp v := by
   obtain ⟨h1, h2, h3⟩ := ne_of_not_sent hv
-  rw [prepareAttrValue, mutateValue]
+  rw [prepareAttrValue]
+  simp only [h3, if_false]
+  rw [mutateValue]
   simp only [h3, if_false]
   rw [mvValue_new _ _ h1 h2]
   simp only [applyOpt_prep]
@@ -247,12 +249,11 @@ theorem prepareAttrValue_plain (m : Nat) (obj : Val) (sp : AttrSpec) (v : Val)
   | ok v2 =>
     simp only [Except.map, mvAttrs_nil, mvTransform, applyOpt, mvAttrTransforms, List.foldlM_nil, pure, Except.pure]
 
-/-- UNCHANGED: the "old value" of `prepare_attr_value` is MISSING -/
-theorem prepareAttrValue_unchanged (n : Nat) (obj : Val) (sp : AttrSpec) (kw : Kw)
-    (hc : sp.ty.isCollection = false) :
-    prepareAttrValue E (n+2) obj sp UNCHANGED kw = .ok MISSING := by
-  rw [prepareAttrValue, mutateValue]
-  simp [hc]
+/-- UNCHANGED is handed back untouched: nothing is prepared -/
+theorem prepareAttrValue_unchanged (n : Nat) (obj : Val) (sp : AttrSpec) (kw : Kw) :
+    prepareAttrValue E (n+1) obj sp UNCHANGED kw = .ok UNCHANGED := by
+  rw [prepareAttrValue]
+  simp
 
 /-- keywords only: a freshly built instance of the annotation's class -/
 theorem prepareAttrValue_build (m : Nat) (obj : Val) (sp : AttrSpec) (v : Val) (kw : Kw) (c : Nat)
@@ -260,7 +261,9 @@ theorem prepareAttrValue_build (m : Nat) (obj : Val) (sp : AttrSpec) (v : Val) (
     (hk : kwOk E sp.ty (kw.map (·.1)) = true) :
     prepareAttrValue E (m+2) obj sp v kw = Spec.build E m c kw := by
   have hU : v ≠ UNCHANGED := by rcases hv with h | h <;> (rw [h]; decide)
-  rw [prepareAttrValue, mutateValue]
+  rw [prepareAttrValue]
+  simp only [hU, if_false]
+  rw [mutateValue]
   simp only [hU, if_false]
   rw [mvValue_old _ _ hv rfl]
   -- the class exists and owns every keyword
@@ -299,7 +302,9 @@ theorem prepareAttrValue_merge (m : Nat) (obj : Val) (sp : AttrSpec) (v : Val) (
     (hd : Spec.isDict (Spec.prep E sp obj v) = false) :
     prepareAttrValue E (m+2) obj sp v kw = Spec.merge E m (Spec.prep E sp obj v) kw := by
   obtain ⟨h1, h2, h3⟩ := ne_of_not_sent hv
-  rw [prepareAttrValue, mutateValue]
+  rw [prepareAttrValue]
+  simp only [h3, if_false]
+  rw [mutateValue]
   simp only [h3, if_false]
   rw [mvValue_new _ _ h1 h2]
   simp only [applyOpt_prep]
